@@ -43,25 +43,27 @@ type History struct {
 	Init       []KV     `json:"init"`
 	Stored     []KV     `json:"stored"`
 	Reads      []KV     `json:"reads"`
+	Rejected   []KV     `json:"rejected,omitempty"`
 	Bad        []string `json:"bad,omitempty"`
 	Race       string   `json:"race,omitempty"`
 	Deadlock   bool     `json:"deadlock,omitempty"`
 }
 type EngineRound struct {
-	Seed        uint64   `json:"seed"`
-	Goroutines  int      `json:"goroutines"`
-	Procs       int      `json:"gomaxprocs"`
-	Jobs        int      `json:"jobs"`
-	Kinds       []string `json:"kinds"`
-	Concurrent  []bool   `json:"concurrent"`
-	Sequential  []bool   `json:"sequential"`
-	Race        string   `json:"race,omitempty"`
-	Deadlock    bool     `json:"deadlock,omitempty"`
-	Bad         []string `json:"bad,omitempty"`
-	Index       int      `json:"index"`
-	Shared      int      `json:"shared_script_objects"`
-	Differs     []string `json:"differs,omitempty"`
-	Validations int64    `json:"validations,omitempty"`
+	Seed         uint64   `json:"seed"`
+	Goroutines   int      `json:"goroutines"`
+	Procs        int      `json:"gomaxprocs"`
+	Jobs         int      `json:"jobs"`
+	Kinds        []string `json:"kinds"`
+	Concurrent   []bool   `json:"concurrent"`
+	Sequential   []bool   `json:"sequential"`
+	Race         string   `json:"race,omitempty"`
+	Deadlock     bool     `json:"deadlock,omitempty"`
+	Bad          []string `json:"bad,omitempty"`
+	Index        int      `json:"index"`
+	Shared       int      `json:"shared_script_objects"`
+	Differs      []string `json:"differs,omitempty"`
+	Validations  int64    `json:"validations,omitempty"`
+	OptionValues int      `json:"shared_option_values,omitempty"`
 }
 type Probe struct {
 	Kind  string `json:"kind"`
@@ -327,7 +329,7 @@ func main() {
 		childExtra = append(childExtra, "-thorough")
 	}
 
-	nFee, nEng, nCoq, nProbe, nHammer := 150, 8, 40, 400, 8
+	nFee, nEng, nCoq, nProbe, nHammer := 150, 8, 32, 400, 8
 	if c.Thorough() {
 		nFee, nEng, nCoq, nProbe, nHammer = 5000, 300, 200, 20000, 300
 	}
@@ -337,7 +339,7 @@ func main() {
 			nFee, nEng, nHammer = 1200, 40, 150
 		}
 	}
-	c.Stats.Rule = "FeeQuote/FeeQuotes: seeded randomized concurrent histories run under the Go race detector (2..16 goroutines, GOMAXPROCS in {1,2,4,16}, 8..47 operations per goroutine over AddQuote, Fee, UpdateExpiry, Expiry, Expired, MarshalJSON, UnmarshalJSON (direct and through encoding/json), FeeQuotes.AddMiner, AddMinerWithDefault, Quote, Fee, UpdateMinerFees on 1..3 shared FeeQuote objects that are also reachable through one shared FeeQuotes); every written value is unique and self-checking (torn values are recognisable); a history is distinct by its seed and non-trivial when at least one read returned a value written by another operation of the history. Engine: rounds of 2..16 goroutines sharing one interpreter.Engine, every transaction (signed P2PKH with 1..3 inputs incl. bad-signature, wrong-amount and legacy SIGHASH_SINGLE variants; script-only pairs) validated by exactly one goroutine, verdicts compared with the sequential ones; in every round about fifty locking script OBJECTS are named by several different transactions (validated by different goroutines): seven contracts per round out of a catalogue of 52 (walked through round after round) whose constants of 2..2049 bytes are read by one opcode family each (binary / unary arithmetic, comparisons, OP_WITHIN, OP_BIN2NUM / OP_NUM2BIN, index / position / size / shift-distance operands, CHECKLOCKTIMEVERIFY / CHECKSEQUENCEVERIFY, splice / bitwise / shift opcodes on byte strings, the five hash opcodes, conditionals, stack movers), every spender bringing its own operand and the result it expects (a third of them a wrong one), forty programs of the interpreter generators (opcode x edge-operand matrix, arithmetic edges, script boundaries, grammar-generated programs, P2SH, conditionals, the node's script vectors, OP_RETURN with tails of 0/1/2/more bytes) each over a locking script object shared by two transactions, signed P2PKH + OP_RETURN + payload outputs, and a bare 2-of-3 multisig script object; the script objects are compared with their bytes before the round. Hammer rounds (built without the race detector): the jobs without curve arithmetic of such a round (six contracts, twenty-four shared programs, OP_RETURN tails incl. <non-key> CHECKSIG NOT OP_RETURN <tail>, whose OP_CHECKSIG puts the whole script together again), every transaction owned by one of 4/8/16 goroutines, validated over and over for 200 ms, every verdict compared with the sequential one. Read-only probe (no schedule involved): the same families, enumerated (every contract template at every constant length of its era), executed with every script of the transaction and of the spent output stored in read-only pages: a write into a script the engine was handed, even one that is undone afterwards, is a memory fault. Plus the lock table and the package-variable scan re-extracted from the checkout and judged by the Coq checker."
+	c.Stats.Rule = "FeeQuote/FeeQuotes: seeded randomized concurrent histories run under the Go race detector (2..16 goroutines, GOMAXPROCS in {1,2,4,16}, 8..47 operations per goroutine over AddQuote, Fee, UpdateExpiry, Expiry, Expired, MarshalJSON, UnmarshalJSON (direct and through encoding/json), FeeQuotes.AddMiner, AddMinerWithDefault, Quote, Fee, UpdateMinerFees on 1..3 shared FeeQuote objects that are also reachable, under several miners, through TWO shared FeeQuotes); every written value is unique and self-checking (torn values are recognisable) and a fee is compared as a WHOLE, numbers and FeeType label, with what was stored at the place it is read from; four *Fee values are kept by the callers and stored again and again, in several quotes and under both fee types (an argument object shared between thread-safe objects: it must read afterwards as the caller made it); a seventh of the operations are writes that FAIL (UnmarshalJSON of a document with an unknown fee type next to good entries, of a cut-off document, of an entry of the wrong shape, directly and through encoding/json; UpdateMinerFees with an empty argument): what they carried is recorded as rejected and may never be read; after the mixed phase a single-writer-per-fee-type phase (acknowledged writes are read back, one *Fee stored under both types by the two writers) and a failing-writes-only phase (one stored value per place, writers whose calls all fail next to readers: every read returns that value); a history is distinct by its seed and non-trivial when at least one read returned a value written by another operation of the history. Engine: rounds of 2..16 goroutines sharing one interpreter.Engine, every transaction (signed P2PKH with 1..3 inputs incl. bad-signature, wrong-amount and legacy SIGHASH_SINGLE variants; script-only pairs) validated by exactly one goroutine, verdicts compared with the sequential ones; in every round about fifty locking script OBJECTS are named by several different transactions (validated by different goroutines): seven contracts per round out of a catalogue of 52 (walked through round after round) whose constants of 2..2049 bytes are read by one opcode family each (binary / unary arithmetic, comparisons, OP_WITHIN, OP_BIN2NUM / OP_NUM2BIN, index / position / size / shift-distance operands, CHECKLOCKTIMEVERIFY / CHECKSEQUENCEVERIFY, splice / bitwise / shift opcodes on byte strings, the five hash opcodes, conditionals, stack movers), every spender bringing its own operand and the result it expects (a third of them a wrong one), forty programs of the interpreter generators (opcode x edge-operand matrix, arithmetic edges, script boundaries, grammar-generated programs, P2SH, conditionals, the node's script vectors, OP_RETURN with tails of 0/1/2/more bytes) each over a locking script object shared by two transactions, signed P2PKH + OP_RETURN + payload outputs, and a bare 2-of-3 multisig script object; the script objects are compared with their bytes before the round. Option VALUES: every round builds each flag-carrying option once (one WithFlags value per flag word, one WithAfterGenesis / WithForkID / WithP2SH / WithDebugger value) and all signed jobs and fourteen flag twins take their options out of that bank, in different combinations and orders: a flag twin is a program whose verdict changes with one flag b (found by running it under its word with every single flag flipped: 24 programs made for one flag each, node vectors, P2SH, OP_RETURN tails, generated programs), validated under the word with b and the word without b, the common part cut into the same shared values, every job twice, script-only twins over ONE WithScripts value; the expected verdict is the sequential one under options built for that run alone (fresh context option, one fresh WithFlags). Hammer rounds (built without the race detector): the jobs without curve arithmetic of such a round (six contracts, twenty-four shared programs, OP_RETURN tails incl. <non-key> CHECKSIG NOT OP_RETURN <tail>, whose OP_CHECKSIG puts the whole script together again, sixteen flag twins over shared option values), every transaction owned by one of 4/8/16 goroutines, validated over and over for 200 ms, every verdict compared with the sequential one. Read-only probe (no schedule involved): the same families, enumerated (every contract template at every constant length of its era), executed with every script of the transaction and of the spent output stored in read-only pages: a write into a script the engine was handed, even one that is undone afterwards, is a memory fault. Plus the lock table (with the flags of the paths on which a call may report failure: they must store nothing) and the package-variable scan re-extracted from the checkout and judged by the Coq checkers."
 
 	// ---- the tables, re-extracted from the checkout this binary is built against
 	feeRaces, engRaces := 0, 0
@@ -353,7 +355,7 @@ func main() {
 		fmt.Fprintln(os.Stderr, "c18race was not built with -race")
 		os.Exit(1)
 	}
-	totalOps := 0
+	totalOps, rejectedTotal := 0, 0
 	for i, h := range fee.res.Histories {
 		totalOps += h.Ops
 		c.Tally("fee/goroutines=" + bucket(h.Goroutines))
@@ -373,7 +375,15 @@ func main() {
 			c.Violate("FeeQuote/deadlock", "goroutines did not finish within 30s", input)
 		}
 		for _, b := range h.Bad {
-			c.Violate("FeeQuote/read-not-written", b, input)
+			// the first one (the workload lists those that name their cause first)
+			switch {
+			case strings.HasPrefix(b, "[failed-write] "):
+				c.Violate("FeeQuote/failed-write-visible", strings.TrimPrefix(b, "[failed-write] "), input)
+			case strings.HasPrefix(b, "[argument] "):
+				c.Violate("FeeQuote/stored-argument-changed", strings.TrimPrefix(b, "[argument] "), input)
+			default:
+				c.Violate("FeeQuote/read-not-written", b, input)
+			}
 			break
 		}
 		// the Coq case: only the stored entries of locations that were read
@@ -400,9 +410,18 @@ func main() {
 				stored = append(stored, kv)
 			}
 		}
+		// what calls that returned an error carried, for the locations that were read (at most 40 of them per history go
+		// into the Coq case; the Go predicate has looked at all)
+		var rejected []KV
+		for _, kv := range h.Rejected {
+			if readKeys[kv.K] && len(rejected) < 40 {
+				rejected = append(rejected, kv)
+			}
+		}
+		rejectedTotal += len(h.Rejected)
 		coq := ""
 		if i < nCoq {
-			coq = fmt.Sprintf("CHistory %s %s %s", coqKVs(init), coqKVs(stored), coqKVs(h.Reads))
+			coq = fmt.Sprintf("CHistoryR %s %s %s %s", coqKVs(init), coqKVs(stored), coqKVs(rejected), coqKVs(h.Reads))
 		}
 		twin := map[string]interface{}{"kind": "fee-history", "seed": h.Seed, "goroutines": h.Goroutines, "gomaxprocs": h.Procs, "ops": h.Ops, "distinct_reads": len(h.Reads), "race": h.Race != ""}
 		c.Case(coq, twin, fmt.Sprintf("fee/%d", h.Seed), nontrivial && h.Goroutines >= 2)
@@ -415,7 +434,7 @@ func main() {
 		engRaces++
 		engFirst = firstReport(eng.stderr)
 	}
-	jobs, accepted, sharedObjs := 0, 0, 0
+	jobs, accepted, sharedObjs, sharedOpts := 0, 0, 0, 0
 	var hammered int64
 	handleRound := func(workload string, e EngineRound) {
 		jobs += e.Jobs
@@ -437,6 +456,7 @@ func main() {
 			c.Violate("Engine.Execute/deadlock", "goroutines did not finish within 60s", input)
 		}
 		sharedObjs += e.Shared
+		sharedOpts += e.OptionValues
 		for _, b := range e.Bad {
 			c.Violate("Engine.Execute/shared-script-object-changed", b, input)
 		}
@@ -463,7 +483,7 @@ func main() {
 				mixed = true
 			}
 		}
-		twin := map[string]interface{}{"kind": workload + "-round", "seed": e.Seed, "goroutines": e.Goroutines, "gomaxprocs": e.Procs, "jobs": e.Jobs, "job_kinds": len(e.Kinds), "script_objects_named_by_several_transactions": e.Shared, "race": e.Race != ""}
+		twin := map[string]interface{}{"kind": workload + "-round", "seed": e.Seed, "goroutines": e.Goroutines, "gomaxprocs": e.Procs, "jobs": e.Jobs, "job_kinds": len(e.Kinds), "script_objects_named_by_several_transactions": e.Shared, "option_values_shared_by_several_jobs": e.OptionValues, "race": e.Race != ""}
 		if e.Validations > 0 {
 			twin["validations"] = e.Validations
 		}
@@ -538,6 +558,21 @@ func main() {
 	c.Case(fmt.Sprintf("CTable %s %s", tblTerm, common.CoqBool(feeRaces > 0)),
 		map[string]interface{}{"kind": "lock-table", "repo": repo, "methods": nMethods, "translator": tblNote, "races_observed": feeRaces},
 		"lock-table", terr == nil)
+	// the same table with the flags "a call may report failure after exactly these actions": such a path stores nothing
+	failsTerm, failing := "[]", 0
+	if terr == nil {
+		failsTerm = gen.LockFailsCoqTerm(tbl)
+		for _, m := range tbl.Methods {
+			for _, f := range m.Fails {
+				if f {
+					failing++
+				}
+			}
+		}
+	}
+	c.Case(fmt.Sprintf("CFailPaths %s %s", tblTerm, failsTerm),
+		map[string]interface{}{"kind": "failing-paths", "repo": repo, "methods": nMethods, "paths_that_may_report_failure": failing, "translator": tblNote},
+		"failing-paths", terr == nil && failing > 0)
 
 	glNote := "ok"
 	vars, engFields, fresh, gerr := gen.GlobalsTable(repo)
@@ -583,6 +618,8 @@ func main() {
 	c.Stats.Extra["fee_operations"] = totalOps
 	c.Stats.Extra["fee_histories_in_coq_cases"] = min(nCoq, len(fee.res.Histories))
 	c.Stats.Extra["fee_race_reports"] = feeRaces
+	c.Stats.Extra["fee_values_carried_by_rejected_calls"] = rejectedTotal
+	c.Stats.Extra["engine_option_values_shared_by_several_jobs"] = sharedOpts
 	c.Stats.Extra["engine_rounds"] = len(eng.res.Rounds)
 	c.Stats.Extra["engine_jobs"] = jobs
 	c.Stats.Extra["engine_jobs_accepted_sequentially"] = accepted
